@@ -99,7 +99,7 @@ CHECKS['C03'] = ('simnet', 'exploration',
 CHECKS['C07'] = ('simnet', 'exploration',
     'property-based testing on a simulated network: invariants over the wire log (one output endpoint per message id) and the call logs (no frame twice, single id per joined set, strictly increasing)',
     'Splitter (source or relay, 2-4 balanced outputs) -> workers of generated, unequal speeds -> balanced-sources joiner, optional ?? watchers, all delay classes; every splitter id appears on exactly '
-    'one output endpoint, no frame is processed by two workers, every joiner set holds one id, joiner sequence strictly increasing; joiner with skipping / low-latency options, dropped publishes; '
+    'one output endpoint, no frame is processed by two workers, every joiner set holds one id, joiner sequence strictly increasing; joiner with skipping / low-latency options or deferred results that yield nothing, dropped publishes; '
     'part receiver_api: a balanced ZMQReceiver fed by forwarders with overlapping shares never returns one set made of two sources.',
     SIMNET_NOTE, '5 C07')
 CHECKS['C05'] = ('simnet', 'exploration',
@@ -107,7 +107,7 @@ CHECKS['C05'] = ('simnet', 'exploration',
     'Publisher with 1-2 synchronized (required) consumers and 1-3 ?/?? consumers that are slow (up to 50 s per frame), stalled forever or hard-killed, optionally an ephemeral branch rejoined as an '
     'ephemeral source: synchronized sinks must see the identical sequence in both runs and finish no later than 450 ms after the run without listeners; a ?? listener never sends on a request channel; '
     'every set an ephemeral consumer gets is complete for its subscription under one id, ids non-decreasing; parts sync_beside_ephemeral (a synchronized source next to an ephemeral one on one receiver) and '
-    'mixed_receiver (per-id topic sets, lost publishes on chosen links, a subscription that matches nothing, an ephemeral stream 10x faster than the synchronized one).',
+    'mixed_receiver (per-id topic sets, lost publishes on chosen links, a subscription that matches nothing, an ephemeral stream 10x faster than the synchronized one, an ephemeral branch that crashes between the topic messages of one publish).',
     SIMNET_NOTE + ' PUB high-water-mark drops towards a stalled listener are not modelled.', '5 C05')
 CHECKS['C04'] = ('simnet', 'exploration',
     'property-based testing on a simulated network with Hypothesis target() maximising the overrun; bound predicate per (publisher, consumer) edge + metamorphic relation (overrun independent of stall length) + queue-depth bound for N and 4N frames',
@@ -121,7 +121,7 @@ CHECKS['C06'] = ('simnet', 'fault_enumeration',
     'Every filter of chain / tee / tee-rejoin / balanced topologies is hard-killed at chosen scheduling steps of a fault-free reference run and restarted after 0 / 0.3 / 2 / 7 s or never (non-required consumers), '
     'or blocks silently for 6-8 s; after the last fault event every live synchronized sink must receive a frame within 7 virtual seconds and keep receiving, a publisher must not publish while its required '
     'output is missing, per-sink ordering must still hold and no filter may end with an exception; also ephemeral watchers and ephemeral-first multi-source consumers, re-connections where SUB and PUSH '
-    'come back at different times, and an enumerated part viewer_restarts (24 cells).',
+    'come back at different times, a filter whose only source is ephemeral, and an enumerated part viewer_restarts (36 cells) which also demands that recovery after three times the uptime takes no longer (metamorphic relation).',
     SIMNET_NOTE + ' Liveness is bounded liveness on sampled schedules ("never deadlocks under any fair schedule" is not established).', '5 C06')
 
 CHECKS['C08'] = ('simnet', 'fault_enumeration',
